@@ -47,6 +47,11 @@ fn zone_list() -> &'static Vec<Arc<Zone>> {
             v.push(zones::by_label(&format!("fixed:{o}")).unwrap());
         }
         v.push(zones::by_label("utc").unwrap());
+        // rule-only POSIX zones (no IANA name: print->parse is skipped for them), listed
+        // several times so that they get a fair share next to ~1200 database names
+        for _ in 0..12 {
+            v.extend(zones::posix_zones().iter().cloned());
+        }
         v
     })
 }
